@@ -259,4 +259,48 @@ Proof.
   - simpl. destruct (t_has t 0) eqn:E; [exact E|exact H].
 Qed.
 
+
+(* The whole content of the sequence, top to bottom. Growth adds exactly the given items at the given end
+   (nothing invented, duplicated or reordered) and moves change nothing but the cursor. *)
+Definition t_items (t : tsl A) : list A :=
+  rev (ups t) ++ match mid t with Some c => [c] | None => [] end ++ downs t.
+
+Theorem feed_growth_exact_fact (t : tsl A) (xs : list A) :
+  t_items (t_step t (FAppend xs)) = t_items t ++ xs /\
+  ((mid t = None -> ups t = []) -> t_items (t_step t (FPrepend xs)) = rev xs ++ t_items t) /\
+  t_items (t_step t FUp) = t_items t /\ t_items (t_step t FDown) = t_items t /\
+  t_items (t_step t FCenter) = t_items t.
+Proof.
+  unfold t_items. repeat split.
+  - cbn [t_step ups mid downs]. rewrite !app_assoc. reflexivity.
+  - intros Hu. cbn [t_step]. destruct (mid t) as [c|] eqn:Em.
+    + cbn [ups mid downs]. rewrite rev_app_distr, <- app_assoc. reflexivity.
+    + rewrite (Hu eq_refl). destruct xs as [|y ys]; cbn [ups mid downs]; rewrite ?Em.
+      * reflexivity.
+      * simpl. rewrite <- !app_assoc. reflexivity.
+  - cbn [t_step]. destruct (t_has t (pos t - 1)); reflexivity.
+  - cbn [t_step]. destruct (t_has t (pos t + 1)); reflexivity.
+  - cbn [t_step]. destruct (t_has t 0); reflexivity.
+Qed.
+
+(* the side condition of the prepend clause holds in every reachable state *)
+Theorem feed_mid_ups_fact (i : finit A) (ops : list (fop A)) :
+  mid (t_run i ops) = None -> ups (t_run i ops) = [].
+Proof.
+  unfold t_run.
+  assert (G : forall t, (mid t = None -> ups t = []) ->
+              mid (fold_left (@t_step A) ops t) = None -> ups (fold_left (@t_step A) ops t) = []).
+  { induction ops as [|o ops IH]; intros t Ht; cbn [fold_left]; [exact Ht|].
+    apply IH. destruct o as [xs|xs| | |]; cbn [t_step].
+    - exact Ht.
+    - destruct (mid t) as [c|] eqn:Em.
+      + cbn [mid]. congruence.
+      + destruct xs as [|y ys]; cbn [mid ups]; [|congruence].
+        intros _. rewrite (Ht eq_refl). reflexivity.
+    - destruct (t_has t (pos t - 1)); exact Ht.
+    - destruct (t_has t (pos t + 1)); exact Ht.
+    - destruct (t_has t 0); exact Ht. }
+  apply G. destruct i; simpl; [congruence | reflexivity].
+Qed.
+
 End FF.
